@@ -15,6 +15,9 @@ type luaDecoder struct {
 	reader   io.Reader
 	finished bool
 	prefs    LuaPreferences
+	// tables on the path being converted, and the error of a table that contains itself
+	converting map[*lua.LTable]bool
+	convertErr error
 }
 
 func NewLuaDecoder(prefs LuaPreferences) Decoder {
@@ -107,6 +110,12 @@ func (dec *luaDecoder) convertToYamlNode(ls *lua.LState, lv lua.LValue) *Candida
 			Tag:  "!!map",
 		}
 		t := lv.(*lua.LTable)
+		if dec.converting[t] {
+			dec.convertErr = fmt.Errorf("lua table contains itself, it cannot be converted")
+			return &CandidateNode{Kind: ScalarNode, Tag: "!!null"}
+		}
+		dec.converting[t] = true
+		defer delete(dec.converting, t)
 		k, v := ls.Next(t, lua.LNil)
 		for k != lua.LNil {
 			if ki, ok := k.(lua.LNumber); i != 0 && ok && math.Mod(float64(ki), 1) == 0 && int(ki) == i {
@@ -167,7 +176,12 @@ func (dec *luaDecoder) Decode() (*CandidateNode, error) {
 	if err != nil {
 		return nil, err
 	}
+	dec.converting = map[*lua.LTable]bool{}
+	dec.convertErr = nil
 	firstNode := dec.decideTopLevelNode(ls)
+	if dec.convertErr != nil {
+		return nil, dec.convertErr
+	}
 	dec.finished = true
 	return firstNode, nil
 }
